@@ -166,6 +166,8 @@ def run(ctx):
         nodes, edges, inits = tlc.parse_dot(dot)
         os.remove(dot)
         total_edges += len(edges)
+        if conf["name"] == "ties":
+            ties_graph = (nodes, edges, inits, conf)
         out = {}
         for u, v, lab in edges:
             out.setdefault(u, []).append((v, lab))
@@ -254,6 +256,9 @@ def run(ctx):
     if missing:
         raise tlc.MachineryError("actions never taken in any Params configuration: %s" % missing)
 
+    # ---------------- 2b. the same constraint prefixes applied by a configuration ---------
+    config_binding(ctx, ties_graph, rng, 120 if quick else 1500, coll)
+
     # ---------------- 3. long simulated behaviours ------------------------------
     nsim = 0
     for conf in confs:
@@ -301,6 +306,156 @@ def run(ctx):
     ctx.assume("complex values restricted to the lattice r*i^k (Cartesian form on an axis); bound in the state machine is the custom expression x+1 on [0,3]; analytic bound kinds only in the numeric part")
     ctx.assume("histories follow the order create, fix/free, tie, bound, then arbitrary interleaving (phase variable)")
     ctx.assume("ReadWriteIdentity is stated for sessions without an active mask block")
+
+
+CONFIG_ACTIONS = ("SetFix", "SetFixCurrent", "Unfix", "SetSame", "SetBound")
+
+
+def config_binding(ctx, graph, rng, budget, coll):
+    """Behaviours made of fix/free, tie and bound operations only are also what a configuration's
+    `constrains` section expresses (fix_var, free_var, var_equal, var_range).  Each such behaviour is
+    written as a configuration, loaded by the real ConfigLoader (which applies the sections in its
+    own order) and the resulting parameter manager is compared with the model state."""
+    from .. import models
+
+    nodes, edges, inits, conf = graph
+    out = {}
+    for u, v, lab in edges:
+        if lab[0] in CONFIG_ACTIONS:
+            out.setdefault(u, []).append((v, lab))
+    # all behaviours (paths) of config actions from the initial states, depth-first, no repeated name per section
+    REAL = {
+        "a": "A->R_BD.CR_BD->B.D_total_0r",
+        "b": "A->R_BD.CR_BD->B.D_total_0i",
+        "c": "A->R_CD.BR_CD->C.D_total_0r",
+        "d": "A->R_CD.BR_CD->C.D_total_0i",
+    }
+    REAL = {k: v for k, v in REAL.items() if k in conf["reals"]}
+    paths = []
+
+    def dfs(u, path):
+        if path:
+            paths.append(list(path))
+        if len(path) >= conf["depth"]:
+            return
+        for v, lab in out.get(u, []):
+            if v == u:
+                continue
+            path.append((lab, v))
+            dfs(v, path)
+            path.pop()
+
+    for i in inits:
+        dfs(i, [])
+
+    def expressible(path):
+        fixed, freed, bounded = set(), set(), set()
+        for (act, args), _ in path:
+            if act in ("SetFix", "SetFixCurrent"):
+                if args[0] in fixed or args[0] in freed:
+                    return False
+                fixed.add(args[0])
+            elif act == "Unfix":
+                if args[0] in freed or args[0] in fixed:
+                    return False
+                freed.add(args[0])
+            elif act == "SetBound":
+                if args[0] in bounded:
+                    return False
+                bounded.add(args[0])
+        return all(n in REAL for (act, args), _ in path for n in ([args[0]] if act != "SetSame" else list(args[0])))
+
+    paths = [p for p in paths if expressible(p)]
+    total = len(paths)
+    # stratify by the multiset of actions
+    groups = {}
+    for p in paths:
+        groups.setdefault(tuple(sorted(a for (a, _), _ in p)), []).append(p)
+    keys = sorted(groups)
+    for k in keys:
+        rng.shuffle(groups[k])
+    picked = []
+    while len(picked) < budget and any(groups[k] for k in keys):
+        for k in keys:
+            if groups[k] and len(picked) < budget:
+                picked.append(groups[k].pop())
+    n = 0
+    for path in picked:
+        st = nodes[path[-1][1]]
+        cons = {"fix_var": {}, "free_var": [], "var_equal": [], "var_range": {}}
+        for (act, args), _ in path:
+            if act == "SetFix":
+                cons["fix_var"][REAL[args[0]]] = float(args[1])
+            elif act == "SetFixCurrent":
+                cons["fix_var"][REAL[args[0]]] = None
+            elif act == "Unfix":
+                cons["free_var"].append(REAL[args[0]])
+            elif act == "SetSame":
+                cons["var_equal"].append([REAL[x] for x in args[0]])
+            elif act == "SetBound":
+                cons["var_range"][REAL[args[0]]] = [0.0, 3.0]
+        d = models.toy_dict(extra={"constrains": dict({"particle": None, "decay": None}, **cons)})
+        hist = ";".join(fmt_step(a, g) for (a, g), _ in path)
+        try:
+            import contextlib
+            import io
+
+            with contextlib.redirect_stdout(io.StringIO()):
+                config = models.make_config(d)
+                amp = config.get_amplitude()
+        except Exception as e:
+            coll.found[("ConfigRaises", hist)] = {"observer": "Exception", "history": "config:" + hist, "message": repr(e)[:200], "kind": "exception"}
+            continue
+        vm = amp.vm
+        n += 1
+        inv = {v: k for k, v in REAL.items()}
+        free_impl = sorted(inv[x] for x in vm.trainable_vars if x in inv)
+        free_model = sorted(st["free"])
+        problems = []
+        if free_impl != free_model or len([x for x in vm.trainable_vars if x in inv]) != len(free_model):
+            problems.append("free names: config gives %s, model %s" % (free_impl, free_model))
+        # tie classes by variable identity observed through a perturbation
+        cls_model = {}
+        for k in REAL:
+            cls_model.setdefault(st["cell"][k], set()).add(k)
+        for members in cls_model.values():
+            head = sorted(members)[0]
+            old = float(vm.get(REAL[head], val_in_fit=False))
+            vm.set(REAL[head], old + 0.37, val_in_fit=False)
+            moved = {k for k in REAL if abs(float(vm.get(REAL[k], val_in_fit=False)) - (old + 0.37)) < 1e-12}
+            vm.set(REAL[head], old, val_in_fit=False)
+            if moved != members:
+                problems.append("tie class of %s: config gives %s, model %s" % (head, sorted(moved), sorted(members)))
+        # fixed names hold the configured value and are no optimiser coordinate
+        free_cells = {st["cell"][x] for x in st["free"]}
+        for (act, args), _ in path:
+            # (only while the name still owns its variable: a later tie makes it follow the group's head)
+            if act == "SetFix" and st["cell"][args[0]] not in free_cells and st["cell"][args[0]] == args[0]:
+                if abs(float(vm.get(REAL[args[0]], val_in_fit=False)) - float(st["store"][st["cell"][args[0]]])) > 1e-12:
+                    problems.append("fixed value of %s" % args[0])
+        # one optimiser step on every coordinate: fixed names stay, tied names stay equal
+        before = {k: float(vm.get(REAL[k], val_in_fit=False)) for k in REAL}
+        xs = [float(x) + 0.11 * (i + 1) for i, x in enumerate(vm.get_all_val(False))]
+        vm.set_all(xs)
+        after = {k: float(vm.get(REAL[k], val_in_fit=False)) for k in REAL}
+        for k in REAL:
+            if st["cell"][k] not in free_cells and abs(after[k] - before[k]) > 1e-12:
+                problems.append("fixed %s moved with the optimiser coordinates" % k)
+        for members in cls_model.values():
+            vals = [after[k] for k in members]
+            if max(vals) - min(vals) > 1e-12:
+                problems.append("tied %s differ after a step" % sorted(members))
+        bm = sorted(k for k in REAL if st["bnd"][k])
+        bi = sorted(inv[x] for x in config.bound_dic if x in inv)
+        if bm != bi:
+            problems.append("bounds: config gives %s, model %s" % (bi, bm))
+        if problems:
+            sig = ("ConfigBinding", problems[0].split(":")[0])
+            cur = coll.found.get(sig)
+            if cur is None or len(hist) < len(cur["history"]):
+                coll.found[sig] = {"observer": "ConfigBinding", "history": "config:" + hist, "message": "; ".join(problems[:3]), "kind": "projection"}
+    ctx.part("config_binding", behaviours=total, replayed=n)
+    ctx.count(n, distinct_key="config_binding")
 
 
 def edge_signature(st, lab):
